@@ -564,8 +564,15 @@ pub fn execute(prop: &str, sc: &E2eScript, opts: &ExecOpts) -> Outcome {
             fold(&mut out, prop, &r);
             let lost = r.events.iter().any(|e| e.message.contains("lost connection"));
             if lost {
-                out.inconclusive = true;
                 out.probe("connection_lost_during_no_loss_family");
+                if sc.net.loss_ppm == 0 {
+                    // nobody cut anything and no datagram was lost: a stream that loses its
+                    // connection here was dropped by the server
+                    let who = r.events.iter().find(|e| e.message.contains("lost connection")).and_then(|e| e.actor);
+                    out.violate(prop, "stream-dropped-by-server", "pubsub-e2e", format!("a client stream (network group {who:?}) lost its connection on a loss-free network with nothing cut: the server dropped a healthy peer"));
+                } else {
+                    out.inconclusive = true;
+                }
             }
             match &r.value {
                 None => {
